@@ -106,6 +106,21 @@ func init() {
 	register("CodeObj", func(repo string) (string, error) {
 		return emitCodeArea(repo, "CodeObj", []codeTarget{
 			{dir: "objects", name: "isValidKey"},
+			// hashutil.CheckReader.Read: what it passes on, given what the underlying reader returned
+			{dir: "hashutil", recv: "CheckReader", name: "Read", cfg: transCfg{
+				stateOut: []string{"r.n", "r.h"},
+				appendTo: map[string]string{"r.h.Write": "r.h"},
+				externs: map[string]extern{
+					"r.h.Sum": {name: "sha256_Sum", args: []string{"state:r.h"}, res: []string{"[]byte"}},
+				},
+				params: []pspec{
+					{src: "r.r.Read(buf)", name: "n_err", typ: "(int,error)"},
+					{src: "buf", name: "buf", typ: "[]byte"},
+					{src: "r.n", name: "r_n", typ: "int64"},
+					{src: "r.h", name: "r_h", typ: "[]byte"},
+					{src: "r.wantLen", name: "r_wantLen", typ: "int64"},
+					{src: "r.wantSha256", name: "r_wantSha256", typ: "[]byte"},
+				}}},
 		})
 	})
 	register("CodeAries", func(repo string) (string, error) {
